@@ -51,7 +51,10 @@ class FieldReader:
                                size, self.src.tell(), value.encode('hex'))
             return value
         if size == 'B':
-            value = ord(self.src.read(1))
+            d = self.src.read(1)
+            if len(d) != 1:
+                raise ValueError(f'{self.name}: end of data reading {field}')
+            value = d[0]
         elif size == 'H':
             d = self.src.read(2)
             value = (d[0] << 8) + d[1]
@@ -65,9 +68,11 @@ class FieldReader:
         elif size == 'S0':
             value = ''
             d = self.src.read(1)
-            while ord(d) != 0:
+            while len(d) == 1 and d[0] != 0:
                 value += str(d, 'utf-8')
                 d = self.src.read(1)
+            if len(d) != 1:
+                raise ValueError(f'{self.name}: unterminated string {field}')
             if self.log and self.log.isEnabledFor(logging.DEBUG):
                 self.log.debug('%s: read %s size=%d pos=%d value="%s"',
                                self.name, field,
